@@ -5,7 +5,8 @@ import vlib
 PROP = "C18"
 EXTRACT = "Extract/C18x.vo"
 UNKNOWN = ["foo.bar", "Status", "status ", "", "shutdown2", "pair", "config.set ", "io.write\t"]
-CREDS = ["none", "wrong", "admin-token", "pair-viewer", "pair-operator", "pair-engineer", "revoked", "expired"]
+CREDS = ["none", "wrong", "admin-token", "pair-viewer", "pair-operator", "pair-engineer", "revoked", "expired",
+         "empty-string", "token-prefix", "token-plus-suffix", "token-lowercased", "token-first-char"]
 
 
 def translate():
@@ -100,7 +101,7 @@ def check(tier):
         "trusted_base": vlib.TRUSTED_BASE + ["translators/c18_roles.py (tokenizing translator of the role/dispatch/debug tables; complete, not sampled)"],
         "theorems": pr["theorems"], "axioms": pr["axioms"],
         "evaluations": len(good), "distinct_nontrivial": len(set(r["line"].split(":")[1] for r in good if r["impl"].split()[0] != "3")),
-        "rule": "EXHAUSTIVE over: every request type the dispatcher knows (translated list) + %d unknown/odd type strings x 8 credentials (none, wrong, admin token, pairing viewer/operator/engineer, revoked, expired) x {token set, unset} x {debug on, off} x params shapes (none / object / admin-only config key), plus 15 garbled lines per configuration, sent over the real unix-socket control server; state probes before/after each request; non-trivial = reply class other than 'unsupported'" % len(UNKNOWN),
+        "rule": "EXHAUSTIVE over: every request type the dispatcher knows (translated list) + %d unknown/odd type strings x 13 credentials (none, wrong, admin token, pairing viewer/operator/engineer, revoked, expired, empty string, token prefix, token+suffix, lower-cased token, first character) x {token set, unset} x {debug on, off} x params shapes (none / object / admin-only config key), plus 15 garbled lines per configuration, sent over the real unix-socket control server; state probes before/after each request; non-trivial = reply class other than 'unsupported'" % len(UNKNOWN),
         "samples": [dict(describe(r["line"], kinds), observed=r["impl"]) for r in good[:3]],
         "exhaustive": True, "reply_classes": classes,
         "model_impl_disagreements": len(diffs), "spec_failures": len(specfails), "stops_scenario": stops[0] if stops else None,
